@@ -90,8 +90,8 @@ theorem rebin_refusals (x : RebinIn) (hne : (binInts x).all (· == 1) = false) :
 /-- `np.rint` on an integer-valued entry is that integer (integer bin shapes are used as given). -/
 theorem rint_int (n : Int) : rintHalfEven (n : Rat) = n := by
   have h1 : ((n : Rat)).floor = n := Rat.floor_intCast n
-  have h2 : (n : Rat) - ((n : Int) : Rat) = 0 := Rat.sub_self _
-  simp only [rintHalfEven, h1, h2]
-  decide
+  have h2 : (n : Rat) - ((n : Int) : Rat) = 0 := Rat.sub_self
+  have h3 : (0 : Rat) < 1/2 := by decide +kernel
+  simp only [rintHalfEven, h1, h2, h3, if_true]
 
 end Ndcube.C08
